@@ -118,6 +118,10 @@ package didsubject
 //@        && next == ret(call (*SqlDIDDocumentManager).CreateOrUpdate #1).0 && isNilIface(ret(call (*SqlDIDDocumentManager).CreateOrUpdate #1).1)
 //@   ensures [one-transaction-id-for-all-dids-of-the-operation] isNilIface(result.1) ==> (forall a string :: (forall b string :: a in result.0 && b in result.0 ==> result.0[a].TransactionID == result.0[b].TransactionID))
 //@   ensures [any-failure-abandons-the-operation] (did(call (*SqlDIDDocumentManager).CreateOrUpdate #1) && !isNilIface(ret(call (*SqlDIDDocumentManager).CreateOrUpdate #1).1)) ==> !isNilIface(result.1)
+// A new version is derived from the latest stored one only after it was established that this latest version is not itself an
+// abandoned one (written, never published, change record still there, not yet swept) - i.e. its change records were looked up.
+// FAILS on the current tree (known finding: the code never looks): the next operation publishes what the abandoned one created.
+//@   ensures [the-version-built-on-is-not-an-abandoned-one] did(call (*SqlDIDDocumentManager).CreateOrUpdate #1) ==> didCallWith("(*gorm.DB).Where", 1, any("did_document_version_id = ?"))
 //@ func (MethodManager).NewDocument
 //@   trusted
 //@   benign
